@@ -80,8 +80,12 @@ class Zygote:
 
 
 class ZygotePool:
-    def __init__(self, workers: int = 16, hashseeds=(0,), src_root: str | None = None, preload: str = ""):
+    def __init__(self, workers: int = 16, hashseeds=None, src_root: str | None = None, preload: str = ""):
         self.src_root = src_root or os.environ.get("VERIF_SRC_ROOT", "/repo/src")
+        if hashseeds is None:
+            # engines for which the interpreter hash seed is not a world parameter run under one value; the
+            # determinism self-test overrides it to show the outcome does not depend on it
+            hashseeds = (int(os.environ.get("VERIF_ZYGOTE_HASHSEED", "0")),)
         self.hashseeds = list(hashseeds)
         self.workers = max(workers, len(self.hashseeds))
         self.zygotes: list[Zygote] = []
